@@ -1324,8 +1324,12 @@ class RealFloat(numbers.Rational):
 
         # step 6. check if rounding was exact (if so, we're done)
         if lost.is_zero():
-            # just choose one of the rounding modes (RTZ)
-            rand_rm = RoundingMode.RTZ
+            # the extended-precision value is representable at position `n`:
+            # either `self` is representable (any mode works), or rounding the
+            # rounding digits carried `self` onto one of its neighbors,
+            # so every draw must round towards that neighbor
+            away = (xr < self) if self._s else (xr > self)
+            rand_rm = RoundingMode.RAZ if away else RoundingMode.RTZ
         else:
             # step 7. normalize `lost` so that `lost.n == n_rand`
             offset = lost._exp - (n_rand + 1)
